@@ -69,7 +69,7 @@ def run(ctx):
         return
     k = ctx.scale(4)
     rng = ctx.rng
-    stores = generic.stores_for(ctx, dict(injected=40, flow=25, random=25, mutated=40, conforming=5, stoptree=8))
+    stores = generic.stores_for(ctx, dict(injected=40, flow=25, random=25, mutated=40, conforming=5, stoptree=24))
     for _ in range(60 * k):
         f, b = gen.det_prog(rng)
         stores.append((f, b, "det"))
